@@ -7,6 +7,26 @@ ALL = ["C%02d" % i for i in range(1, 21)]
 SOLVER_NOTE = 'Trusted: Coq kernel; the solver model Model/Solver.v is hand-written and tied to ConstraintsSolverMixin/ObjectivesMaximizerMixin trace-exactly (same sequence of evaluate calls, same numpy draws, same outcome and final sequence) on recorded runs, with specification behaviour supplied as finite tables recorded from the implementation; the recorder wraps classes from outside (no source hooks) and interns specification objects by content; float-valued totals are compared trace-exactly only where binary64 arithmetic is exact (integer/dyadic scores and boosts), otherwise by the oracle with 1e-9 tolerance; numpy RandomState is an oracle.'
 
 CLAIMED = {
+    "C04": dict(
+        text="Theorems (Coq): the space built by from_optimization_problem's merge procedure is EXACT - a sequence of the right length is a member iff it satisfies every restriction choice (merge_with keeps exactly the variants compatible with ALL overlapping choices, extract_varying_region is exact), the space is a well-formed partition, 'unsolvable' (a choice left without variant) iff no sequence satisfies all restrictions, constrain_sequence moves the initial sequence into the space. The per-class meaning of restrict_nucleotides (AvoidChanges, EnforceTranslation both strands/all start-codon policies, EnforceSequence IUPAC, EnforceChoice, EnforceChanges, AvoidRareCodons) is modelled and tied by correspondence, and decided by brute force over all 4^L sequences (membership vs evaluate().passes) - that half is not a Coq theorem.",
+        note="Trusted: Coq kernel; hand model of MutationSpace/MutationChoice tied by correspondence; start-codon policy is read as part of the documented predicate of EnforceTranslation (the space is stricter than evaluate(), DESIGN section 7).",
+        technique="Coq proof (fold invariant: partition index representing the intersection so far) + vm_compute correspondence + brute-force oracle", design="6/C04"),
+    "C10": dict(
+        text="Theorems (Coq) relating the evaluation ALGORITHMS (cumulative sums, nonzero, grouping, coordinate mapping) to the documented formulas and to breach coverage for AvoidPattern, EnforcePatternOccurence, EnforceGCContent (windowed and global), EnforceSequence (both strands), AvoidChanges, AvoidStopCodons, EnforceChoice, SequenceLengthBounds and the binned-interval helper; all 16 modelled classes are tied to the code by vm_compute correspondence and checked against independent Python references (score formula, pass predicate, locations non-empty / inside the sequence / covering the breach). Partial: the formula theorems of the remaining classes are not proved (correspondence + references only).",
+        note="Trusted: Coq kernel; hand model Model/Specs.v; thresholds read as written decimals; codon tables are data (log-frequencies supplied as exact values of the implementation's floats).",
+        technique="Coq proof (formula = algorithm, coverage via grouping lemmas) + vm_compute correspondence + independent reference oracles", design="6/C10"),
+    "C13": dict(
+        text="Theorems (Coq): CircularDnaOptimizationProblem.resolve_constraints returns normally only if the circular evaluation of every constraint passes (final-check dominance, whatever the solver did on the three-copy view) and keeps the length; the circular evaluation sees across the origin (a passing whole-sequence AvoidPattern / windowed GC on the three-copy view has no occurrence / breaching window in s + s[:k-1]); edit mirroring yields three equal copies and takes over single-copy edits. Circular evaluations, specification shifting and mirroring tied by correspondence; solves checked by an independent cyclic scan, all_constraints_pass(autopass=False) and hard-restriction membership on the implementation.",
+        note="Trusted: Coq kernel; the solver run on the three-copy view is abstract in the theorem (its linear version is the subject of C01/C12); hard restrictions after a circular solve are decided by the oracle, not by a theorem.",
+        technique="Coq proof (final-check dominance, wrap-around window lemmas) + vm_compute correspondence + cyclic-scan oracle", design="6/C13"),
+    "C17": dict(
+        text="Theorems (Coq): number_of_edits is the number of differing positions; edit features are exactly the maximal runs of edited positions and are labelled with the true before/after sub-sequences; the summary says SUCCESS iff every listed evaluation passes. These are functions of the current state, so 'at any point of a problem's life' is 'for all states'; histories (resolve/optimize/optimize_objective/manual assignments) are exercised by the differential run, which also checks the boost-weighted total and its rounded text against an independent formatter.",
+        note="Trusted: Coq kernel; float formatting of the total and Biopython feature objects are outside the model (differential only).",
+        technique="Coq proof (corollaries of the C19 difference lemmas) + vm_compute correspondence over operation histories", design="6/C17"),
+    "C20": dict(
+        text="Theorems (Coq): passes iff score >= 0; optimal iff score = declared best; every modelled class declaring a best score declares 0 (constants regenerated from the class attributes on every run); in its objective configuration no built-in class scores above 0, for every sequence and parameters (all 16 modelled classes); goal met completely => score 0 for AvoidPattern, EnforcePatternOccurence, windowed EnforceGCContent. Tied to the code by correspondence (flags, declared constants, scores).",
+        note="Trusted: Coq kernel; MaximizeCAI needs logf <= logbest per codon (checked on each table instance by the harness; numpy.log monotone on table values is trusted).",
+        technique="Coq proof (non-positivity per class; regenerated constants) + vm_compute correspondence", design="6/C20"),
     "C01": dict(
         text="Theorems (Coq) over an abstract-specification model of resolve_constraints: for EVERY type of specification with arbitrary evaluate/localized/initialized_on_problem functions and resolution heuristics (wrong ones included), every configuration and every stream of random draws, a normal return implies every constraint passes when fully re-evaluated (the return that skips the final check is covered by the C04 hypothesis); and if localized() does not raise and heuristics end with a sequence of the local space or NoSolutionError, no outcome other than return / NoSolutionError exists (every Python-level partial operation on the path is modelled as an error outcome and shown unreachable). Model tied to the code trace-exactly on recorded runs; oracle re-evaluates every constraint and classifies exceptions on the implementation.",
         note=SOLVER_NOTE, technique="Coq proof (final-check dominance; invariant 'sequence stays in the mutation space' excludes the error sites) + trace-exact correspondence with recorded runs", design="6/C01"),
